@@ -196,6 +196,56 @@ def real_read(chk: core.Check, tabs):
         os.unlink(path)
 
 
+FIRST_READ_CHILD = r"""
+import sys, json
+sys.path.insert(0, sys.argv[1])
+import numpy as np, awkward as ak
+from checks import raw_common as rc
+import pybes3
+from pybes3.besio import _reid
+path, workers = sys.argv[2], (None if sys.argv[3] == "None" else int(sys.argv[3]))
+with rc.NativeBackedReader():
+    with pybes3.open_raw(path) as r:
+        dec = r.arrays(n_block_per_batch=1, max_workers=workers)           # the FIRST decoding read of this process
+    with pybes3.open_raw(path) as r:
+        raw = r.arrays(n_block_per_batch=1000, max_workers=workers, decode_reid=False)
+tabs = {"mdc": _reid.build_mdc_re2te(), "tof": _reid.build_tof_re2te(), "emc": _reid.build_emc_re2te(), "muc": _reid.build_muc_re2te()}
+out = {}
+for d in tabs:
+    rid = ak.to_numpy(ak.flatten(raw[d]["id"])).astype(np.int64); tid = ak.to_numpy(ak.flatten(dec[d]["id"])).astype(np.uint64)
+    want = tabs[d][rid].astype(np.uint64)
+    bad = np.nonzero(tid != want)[0] if len(tid) == len(want) else np.array([0])
+    out[d] = {"n": int(len(rid)), "n_bad": int(len(bad)), "first": (None if not len(bad) else [int(rid[bad[0]]), hex(int(tid[bad[0]])) if len(tid) == len(want) else "length", hex(int(want[bad[0]]))])}
+print(json.dumps(out))
+"""
+
+
+def first_read_in_fresh_process(chk: core.Check):
+    """the decode relation for the FIRST decoding read of a fresh process, many one-block batches, 1 / 8 / default worker threads
+    (tables built lazily, possibly while other workers already decode)"""
+    import subprocess
+    rng = np.random.default_rng(chk.seed + 1010)
+    import random as _r
+    blocks = [[rf.gen_event(_r.Random(int(rng.integers(1 << 30))), k)] for k in range(24)]
+    path = rc.write_tmp(rf.enc_file(blocks))
+    try:
+        # which worker sees a half-built table is a matter of scheduling: several fresh processes per worker count
+        for workers in ("8", "None", "16", "4", "1", "8", "2", "None", "8", "16"):
+            p = subprocess.run([core.PY, "-c", FIRST_READ_CHILD, str(core.VERIF / "tools"), path, workers], capture_output=True, text=True, timeout=900)
+            chk.count(1, key=f"first-read-{workers}")
+            if p.returncode != 0 or not p.stdout.strip():
+                chk.failing_input("first decoding read of a fresh process", {"blocks": 24, "n_block_per_batch": 1, "max_workers": workers}, p.stderr[-400:], "decoded arrays", "every electronics id is mapped without error")
+                return
+            res = json.loads(p.stdout.strip().splitlines()[-1])
+            for d, r in res.items():
+                if r["n_bad"]:
+                    chk.failing_input(f"first decoding read of a fresh process: {d} id", {"blocks": 24, "n_block_per_batch": 1, "max_workers": workers, "electronics_id": r["first"][0]}, r["first"][1], r["first"][2],
+                                      "the id of every digi is the table image of the electronics id that the same read returns with decoding disabled")
+                    return
+    finally:
+        os.unlink(path)
+
+
 def main(chk: core.Check) -> int:
     chk.coverage["rule"] = "evaluations = table entries scanned on the real builders + digis of the all-ids file read with decoding on/off; distinct = check classes"
     chk.assumptions += ["BOSS sources are not available offline: 'equals the BOSS map' is decided as 'equals the pinned reference tables' (reference/reid_tables.json, SHA-256 pinned at commit 631bbaa)",
@@ -211,6 +261,8 @@ def main(chk: core.Check) -> int:
     try:
         tabs = oracle_tables(chk)
         real_read(chk, tabs)
+        if not chk.failing:
+            first_read_in_fresh_process(chk)
     except Exception as ex:
         import traceback
         chk.obligation_broken("correspondence", "oracle run on implementation", f"{type(ex).__name__}: {ex}\n{traceback.format_exc()[-1500:]}")
